@@ -417,6 +417,15 @@ impl ReadXml for Reply {
                                 tracing::debug!(?tag);
                                 this = Some(Self::Ok);
                             }
+                            (ResolveResult::Bound(xmlns::BASE), Event::Start(tag))
+                                if tag.local_name().as_ref() == b"ok"
+                                    && this.is_none()
+                                    && !errors.iter().any(rpc::Error::is_error) =>
+                            {
+                                tracing::debug!(?tag);
+                                _ = reader.read_to_end(tag.to_end().name())?;
+                                this = Some(Self::Ok);
+                            }
                             (ResolveResult::Bound(ns), Event::Start(tag))
                                 if ns == xmlns::BASE
                                     && tag.local_name().as_ref() == b"rpc-error"
